@@ -204,6 +204,7 @@ pub fn main(o: &Opts) -> i32 {
         Tier::Thorough => (program_space(3, 1), "P(3,1) + S(4)"),
     };
     progs.extend(size_family(if o.tier == Tier::Quick { 3 } else { 4 }).into_iter().map(|x| x.3));
+    progs.extend(extra_programs());
     // multi-commitment bases (the letter alphabet rarely has more than two commitments)
     for s in ["C C C Kd Kb", "C C M Kd R[Z Kc T]", "T C T C Kd T"] {
         progs.push(Program::parse(s).unwrap());
